@@ -83,6 +83,10 @@ pub struct Weights {
     pub wide: u32,
     /// per-mille probability of a hostile twist per snippet
     pub hostile: u32,
+    /// LDC that can succeed: drops the local frame (`$sp == $ssp`), loads contract / blob /
+    /// memory code, re-creates the frame above it. Default 0 (family never chosen, no
+    /// random draw changes)
+    pub ldc: u32,
     /// per-mille probability that a random raw word is inserted
     pub garbage: u32,
     /// per-mille probability that a contract's TR names the contract itself (`$fp`) as
@@ -94,11 +98,17 @@ pub struct Weights {
     pub flood: u32,
     /// trip count of the flood loop (< 2^18)
     pub flood_n: u32,
+    /// per-mille probability that a storage snippet is drawn from the extended shape set
+    /// (`storage_rich`: write-then-read-back with offsets at/after the end, zero-length and
+    /// long values, ranges around 2^256-1 and byte-carry keys, legacy instructions on
+    /// dynamic values, reserved status registers). 0 keeps the original output.
+    pub storage_rich: u32,
 }
 
 impl Default for Weights {
     fn default() -> Self {
         Self {
+            ldc: 0,
             alu: 10,
             mem: 10,
             stack: 4,
@@ -117,6 +127,7 @@ impl Default for Weights {
             self_transfer: 0,
             flood: 0,
             flood_n: 0,
+            storage_rich: 0,
         }
     }
 }
@@ -550,7 +561,237 @@ impl<'a> Gen<'a> {
         self.ptr_data(r, off);
     }
 
+    /// key pool of the extended storage shapes: small keys, keys whose increment carries
+    /// into the next byte(s), keys just below 2^256
+    fn key_ptr_rich(&mut self, r: u8) {
+        let mut k = [0u8; 32];
+        match self.rng.below(20) {
+            n @ 0..=7 => k[31] = n as u8,
+            8 => k[31] = 0xfe,
+            9 => k[31] = 0xff,
+            10 => k[30] = 0x01,
+            11 => {
+                k[30] = 0x01;
+                k[31] = 0x01;
+            }
+            12 => {
+                k = [0xff; 32];
+                k[0] = 0x7f;
+                k[31] = 0xfe;
+            }
+            13 => k[0] = 0x80,
+            n => {
+                // 0xff..fa ..= 0xff..ff
+                k = [0xff; 32];
+                k[31] = 0xfa + (n as u8 - 14);
+            }
+        }
+        let off = self.data(&k);
+        self.ptr_data(r, off);
+    }
+
+    /// Extended storage shapes (enabled by `Weights::storage_rich`). Registers: 16 key
+    /// pointer, 17 source pointer, 18 length, 19 offset, 20 destination pointer, 21
+    /// scratch; status / value registers are drawn from the value pool.
+    fn storage_rich(&mut self) {
+        let (k, p, l, o, d, t) = (16u8, 17u8, 18u8, 19u8, 20u8, 21u8);
+        let (s, v) = (self.val(), self.val());
+        self.key_ptr_rich(k);
+        // source bytes: random data embedded in the program, or the local frame (sometimes
+        // refreshed with random data first)
+        let blob_len = 64 + self.rng.below(160) as usize;
+        let blob: Vec<u8> = (0..blob_len).map(|_| self.rng.u8()).collect();
+        let boff = self.data(&blob);
+        if self.rng.chance(1, 4) {
+            self.ptr_loc(p, 0);
+            self.ptr_data(t, boff);
+            self.emit(op::mcpi(p, t, blob_len as u16));
+        }
+        if self.rng.chance(2, 3) {
+            self.ptr_data(p, boff);
+        } else {
+            self.ptr_loc(p, self.rng.below(64) as u32);
+        }
+        self.ptr_loc(d, 512 + (self.rng.below(8) * 8) as u32);
+        let lens = [0u32, 0, 1, 7, 8, 9, 24, 31, 32, 32, 33, 40, 63, 64, 65, 95, 96, 97, 128, 255, 256, 257, 300];
+        let len = *self.rng.pick(&lens);
+        match self.rng.below(40) {
+            0..=5 => {
+                // write a value, ask for its length, read around the end
+                if self.rng.bool() {
+                    self.emit(op::swri(k, p, (len & 0xfff) as u16));
+                } else {
+                    self.emit(op::movi(l, len));
+                    self.emit(op::swrd(k, p, l));
+                }
+                self.emit(op::spld(l, k));
+                match self.rng.below(10) {
+                    0..=2 => self.emit(op::srdd(d, k, ZERO, l)), // whole value
+                    3 | 4 => self.emit(op::srdd(d, k, l, ZERO)), // empty slice at the end
+                    5 => {
+                        // empty slice one past the end
+                        self.emit(op::addi(o, l, 1));
+                        self.emit(op::srdd(d, k, o, ZERO));
+                    }
+                    6 | 7 => {
+                        // last byte(s), ending exactly at the end (or one past it)
+                        let back = 1 + self.rng.below(8) as u16;
+                        self.emit(op::subi(o, l, back));
+                        let extra = self.rng.chance(1, 4) as u8;
+                        self.emit(op::srdi(d, k, o, back as u8 + extra));
+                    }
+                    8 => {
+                        self.emit(op::movi(o, self.rng.below(len as u64 + 1) as u32));
+                        self.emit(op::sub(l, l, o));
+                        self.emit(op::srdd(d, k, o, l));
+                    }
+                    _ => {
+                        self.emit(op::movi(o, self.rng.below(len as u64 + 2) as u32));
+                        self.emit(op::movi(l, self.rng.below(len as u64 + 2) as u32));
+                        self.emit(op::srdd(d, k, o, l));
+                    }
+                }
+            }
+            6..=10 => {
+                // update relative to the current length
+                self.emit(op::spld(o, k));
+                match self.rng.below(9) {
+                    0 | 1 => {}                                  // offset == length (append by value)
+                    2 | 3 => self.emit(op::not(o, ZERO)),        // append marker
+                    4 => self.emit(op::addi(o, o, 1)),           // one past the end
+                    5 => self.emit(op::subi(o, o, 1 + self.rng.below(12) as u16)),
+                    6 | 7 => self.emit(op::srli(o, o, 1)),
+                    _ => self.emit(op::move_(o, ZERO)),
+                }
+                let ul = *self.rng.pick(&[0u32, 0, 1, 5, 8, 13, 32, 40, 63]);
+                if self.rng.bool() {
+                    self.emit(op::movi(l, ul));
+                    self.emit(op::supd(k, p, o, l));
+                } else {
+                    self.emit(op::supi(k, p, o, (ul & 0x3f) as u8));
+                }
+                if self.rng.bool() {
+                    self.emit(op::spld(v, k));
+                    self.emit(op::srdd(d, k, ZERO, v));
+                }
+            }
+            11 | 12 => {
+                // legacy reads of whatever is there (any word offset)
+                self.emit(op::srw(v, s, k, self.rng.below(64) as u8));
+            }
+            13..=15 => {
+                // dynamic write followed by legacy accesses of the same slot
+                self.emit(op::swri(k, p, (len & 0xfff) as u16));
+                match self.rng.below(4) {
+                    0 => self.emit(op::srw(v, s, k, self.rng.below(12) as u8)),
+                    1 => {
+                        self.emit(op::movi(l, 1 + self.rng.below(2) as u32));
+                        self.emit(op::srwq(d, s, k, l));
+                    }
+                    2 => self.emit(op::sww(k, s, v)),
+                    _ => {
+                        self.emit(op::movi(l, 1));
+                        self.emit(op::scwq(k, s, l));
+                    }
+                }
+            }
+            16..=20 => {
+                // sequential write then read back / clear part of it
+                let n = self.rng.below(7) as u32;
+                self.emit(op::movi(l, n));
+                self.emit(op::swwq(k, s, p, l));
+                match self.rng.below(4) {
+                    0 => {
+                        self.emit(op::movi(l, self.rng.below(7) as u32));
+                        self.emit(op::srwq(d, v, k, l));
+                    }
+                    1 => {
+                        self.emit(op::movi(l, self.rng.below(4) as u32));
+                        self.emit(op::scwq(k, v, l));
+                    }
+                    2 => {
+                        self.emit(op::movi(l, self.rng.below(4) as u32));
+                        self.emit(op::sclr(k, l));
+                    }
+                    _ => {}
+                }
+            }
+            21 | 22 => {
+                self.emit(op::movi(l, self.rng.below(8) as u32));
+                self.emit(op::srwq(d, s, k, l));
+            }
+            23..=25 => {
+                self.emit(op::movi(l, self.rng.below(8) as u32));
+                if self.rng.bool() {
+                    self.emit(op::scwq(k, s, l));
+                } else {
+                    self.emit(op::sclr(k, l));
+                }
+                // the cleared slot must read as absent afterwards
+                match self.rng.below(3) {
+                    0 => self.emit(op::spld(v, k)),
+                    1 => self.emit(op::srw(v, s, k, 0)),
+                    _ => self.emit(op::srdi(d, k, ZERO, 0)),
+                }
+            }
+            26..=28 => {
+                // size query and read of an arbitrary key
+                self.emit(op::spld(l, k));
+                self.emit(op::srdd(d, k, ZERO, l));
+            }
+            29 | 30 => {
+                // long values
+                let big = *self.rng.pick(&[95u32, 96, 97, 255, 256, 257, 512, 1000]);
+                self.ptr_loc(p, 0);
+                self.emit(op::movi(l, big));
+                if self.rng.bool() {
+                    self.emit(op::swrd(k, p, l));
+                } else {
+                    self.emit(op::not(o, ZERO));
+                    self.emit(op::supd(k, p, o, l));
+                }
+            }
+            31 => {
+                // reserved / aliased result registers (the instruction must fail)
+                let rs = *self.rng.pick(&[ZERO, ONE, 8u8, 15u8]);
+                match self.rng.below(5) {
+                    0 => self.emit(op::sww(k, rs, v)),
+                    1 => {
+                        self.emit(op::movi(l, 1 + self.rng.below(3) as u32));
+                        self.emit(op::swwq(k, rs, p, l));
+                    }
+                    2 => {
+                        self.emit(op::movi(l, 1 + self.rng.below(3) as u32));
+                        self.emit(op::scwq(k, rs, l));
+                    }
+                    3 => self.emit(op::srw(v, v, k, 0)),
+                    _ => self.emit(op::spld(rs, k)),
+                }
+            }
+            32..=34 => {
+                // word write then word reads at every offset class
+                self.emit(op::sww(k, s, v));
+                let off = *self.rng.pick(&[0u8, 1, 3, 4, 63]);
+                let v2 = self.val();
+                self.emit(op::srw(v2, s, k, off));
+            }
+            35 => {
+                // sequential write whose source ends outside readable memory / partial
+                self.emit(op::subi(p, HP, 40));
+                self.emit(op::movi(l, 1 + self.rng.below(3) as u32));
+                self.emit(op::swwq(k, s, p, l));
+            }
+            _ => {
+                self.emit(op::spld(v, k));
+            }
+        }
+    }
+
     fn storage(&mut self) {
+        if self.w.storage_rich > 0 && self.rng.below(1000) < self.w.storage_rich as u64 {
+            self.storage_rich();
+            return;
+        }
         let (k, s, v) = (self.tmp(), self.val(), self.val());
         let (p, l) = (self.tmp(), self.tmp());
         if k == p || k == l || p == l {
@@ -773,6 +1014,38 @@ impl<'a> Gen<'a> {
                 self.emit(op::bal(v, ap, p));
             }
         }
+    }
+
+    /// LDC with `$sp == $ssp`: the local frame is dropped, code is loaded, the frame is
+    /// re-created above the loaded code (its previous contents are lost)
+    fn load_code(&mut self) {
+        let (p, o, l) = (16u8, 17u8, 18u8);
+        self.emit(op::cfsi(FRAME));
+        let mode = self.rng.below(3) as u8;
+        match mode {
+            0 => {
+                self.contract_ptr(p);
+            }
+            1 => {
+                let id = if self.env.blobs.is_empty() || self.rng.chance(1, 20) { self.rng.arr() } else { *self.rng.pick(&self.env.blobs) };
+                let off = self.data(&id);
+                self.ptr_data(p, off);
+            }
+            _ => self.ptr_data(p, 0),
+        }
+        self.emit(op::movi(o, self.rng.below(64) as u32));
+        match self.rng.below(6) {
+            0 => self.emit(op::move_(l, ZERO)),
+            1 => self.emit(op::movi(l, self.rng.below(3000) as u32)),
+            _ => self.emit(op::movi(l, self.rng.below(200) as u32)),
+        }
+        if self.hostile() {
+            let t = [p, o, l][self.rng.usize_below(3)];
+            self.twist(t);
+        }
+        self.emit(op::ldc(p, o, l, mode));
+        self.emit(op::move_(R_LOC, SP));
+        self.emit(op::cfei(FRAME));
     }
 
     fn query(&mut self) {
@@ -1071,7 +1344,43 @@ impl<'a> Gen<'a> {
                 self.code[at] = w(op::jnef(a, b, ZERO, (skip & 0x3f) as u8));
             }
             _ => {
-                if self.hostile() {
+                if self.hostile() && self.rng.bool() {
+                    // jump into writable memory: plant `ret $one` in the local frame / heap
+                    // and jump there (must not execute: outside [$is, $ssp))
+                    let (t, v) = (self.tmp(), self.val());
+                    let word = (w(op::ret(ONE)) as u64) << 32 | w(op::ret(ONE)) as u64;
+                    self.load_const(v, word);
+                    match self.rng.below(3) {
+                        0 => {
+                            self.emit(op::sw(R_LOC, v, 0));
+                            self.emit(op::move_(t, R_LOC));
+                        }
+                        1 => {
+                            self.emit(op::movi(t, 16));
+                            self.emit(op::aloc(t));
+                            self.emit(op::sw(HP, v, 0));
+                            self.emit(op::move_(t, HP));
+                        }
+                        _ => {
+                            self.emit(op::sw(R_LOC, v, 8));
+                            self.emit(op::addi(t, R_LOC, 64));
+                        }
+                    }
+                    match self.rng.below(3) {
+                        0 => self.emit(op::jal(ZERO, t, 0)),
+                        1 => {
+                            // absolute jump: ($t - $is) / 4
+                            self.emit(op::sub(t, t, IS));
+                            self.emit(op::srli(t, t, 2));
+                            self.emit(op::jmp(t));
+                        }
+                        _ => {
+                            // relative forward: ($t - $pc) / 4 - 1, computed approximately:
+                            // land somewhere in the frame
+                            self.emit(op::jal(self.val(), t, 2));
+                        }
+                    }
+                } else if self.hostile() {
                     // wild jump
                     let t = self.tmp();
                     self.interesting_value(t);
@@ -1095,7 +1404,7 @@ impl<'a> Gen<'a> {
         let internal = self.mode == Mode::Contract;
         let pred = self.mode == Mode::Predicate;
         let wt = self.w.clone();
-        let table: [(u32, u8); 13] = [
+        let table: [(u32, u8); 14] = [
             (wt.alu, 0),
             (wt.mem, 1),
             (wt.stack, 2),
@@ -1109,6 +1418,7 @@ impl<'a> Gen<'a> {
             (wt.introspect, 10),
             (if depth < 2 { wt.flow } else { 0 }, 11),
             (wt.wide, 12),
+            (if pred { 0 } else { wt.ldc }, 13),
         ];
         let total: u32 = table.iter().map(|t| t.0).sum();
         let mut x = self.rng.below(total.max(1) as u64) as u32;
@@ -1133,6 +1443,7 @@ impl<'a> Gen<'a> {
             9 => self.crypto(),
             10 => self.introspect(),
             11 => self.flow(depth, in_sub),
+            13 => self.load_code(),
             _ => self.wide(),
         }
     }
